@@ -541,6 +541,10 @@ def run (ctx):
           good = defs.arity_ok(s, c)
           ctx.ob('R-DEF', s, "override of send() accepts send_error's call `%s`" % norm(c), good,
                  "compatible" if good else "%s.send%s cannot bind the call %s made by send_error: every error reply of this switch raises TypeError" % (sub.name, tuple(s.params), norm(c)), s, 'D7')
+  # ---- D9 statistics are answered from the table as it is now: whatever the table remembers about earlier queries is reset by every change
+  from .. import caches
+  ftm_ = repo.mod('openflow.flow_table')
+  caches.check(ctx, repo, [ftm_.classes['FlowTable']] if ftm_ is not None and 'FlowTable' in ftm_.classes else [], 'D9', "a flow / aggregate statistics request is answered with flows that no longer match (or without flows that now do)")
   # ---- D8 a request the decoder gives up on is an invalid request: it is refused with an error, the connection is kept --------------
   # (libopenflow's unpackers assert / underrun when the lengths inside a message do not add up - a get-config or barrier request
   # whose header says 12.  An exception that leaves read() makes the I/O worker close the connection: "a dropped connection".)
